@@ -591,6 +591,7 @@ Section Conv.
   Definition convert_math_frac (kids : list bundle) (c : ctx) : M doc :=
     flow_like c kids (fun c node =>
       if is_expr (bt node) then d <- call node (math_operand_req c) ;; ret (fi_spaced d)
+      else if kind_eqb (bk node) KSemicolon then ret (fi_tight_spaced (convert_trivia (bt node)))
       else if negb (kind_eqb (bk node) KSpace) then ret (fi_spaced (convert_trivia (bt node)))
       else ret fi_none).
 
